@@ -262,6 +262,6 @@ def graph_blocks(tier):
 
 
 def run(ctx):
-    cnt = ctx.each("graph", graph_blocks(ctx.tier), check_graph_block, stop_after=5, timeout=300)
+    cnt = ctx.each("graph", graph_blocks(ctx.tier), check_graph_block, stop_after=5, timeout=150)
     ctx.exhaustive["graph"] = {"complete": True, "n_states": cnt, "bound": "3 rules x n<=5, pairs (quick) / n<=6, triples (thorough); every (state, op) transition"}
     ctx.hyp("history", history, check_history, ctx.scale(300, 5000))
